@@ -1644,7 +1644,13 @@ def run(ctx: vlib.Ctx):
         "owners), random instance trees, root keyword arguments incl. call dialect; the nested part of every output is "
         "compared with the nested class's own projection (own plain serialization when it set nothing); history: "
         "systematic owner(lazy?) x nested kind x field kind x first call with/without dialect=; edge: systematic special "
-        "defaults (NaN, tuples of enum members / paths, 0.0, True) x source of omit_default x omit_none x features. "
+        "defaults (NaN, tuples of enum members / paths, 0.0, True) x source of omit_default x omit_none x features; "
+        "generic: classes C(Generic[T]) with gv: T / ga: Annotated[T, ...] inside the nested tables (30 %) and systematically "
+        "under every binding (bare, int, date, Optional[int], Optional[date], Union[int, str, None], Any, a bounded variable "
+        "left unbound) x mixin / plain / plain+Config x direct / Optional / List / Dict / Union field x keyword / call dialect / "
+        "codec of the specialised class; declared: (declared type, default) of every leaf field of those tables against "
+        "is_field_nullable of the real (specialised) builder; emitted: the lines _pack_method_set_value of a real builder writes "
+        "for every field of every third flat class x by_alias feature x omit_default. "
         "distinct = (schema shape, option vector, values)")
     ctx.trusted += [
         "OptProj.v: hand-written model of the generated to_dict body (kwargs-vs-literal form, nullable / omit_default / "
@@ -1663,6 +1669,14 @@ def run(ctx: vlib.Ctx):
         "is_annotated/is_final/is_optional/is_type_var_any as tag tests (is_optional's source text is checked), the "
         "`while True` unwrapping loop as bounded iteration with fuel 1 + nesting depth; k18_pack_bookkeeping.py: "
         "_get_field_packer abstracted as its three results (could_be_none = is_field_nullable is checked textually)",
+        "tools/kernels/k108a_set_value.py + OptEmit.v: _pack_method_set_value / __pack_method_set_value translated as functions "
+        "returning the emitted lines as structured values (f-string pieces, blocks); OptEmit.run_lines is the hand-written READING "
+        "of those shapes (if by_alias / else, if value != <literal>, the NaN test, kwargs[key] = packed); get_field_default, "
+        "get_field_default_literal, the NaN test on the default and the serialize_by_alias lookup (K3) are parameters; the text "
+        "rendered from the translated lines is compared with the text the real emitter writes on every run",
+        "K17Proofs.dty: declared types with type variables (bound by the specialisation / left unbound with a bound); "
+        "get_real_type is translated as PyK_c08.ty_real (substitution at the top of the type only -- what is_field_nullable "
+        "inspects); compared with the real builder of the specialised class on every run",
         "tools/kernels/k8_packflags.py: is_code_generation_option_enabled abstracted as a namespace lookup (source "
         "text of the method is checked), pass_encoder=False slice of get_pack_method_flags; K3 abstraction of "
         "self.dialect / Config.dialect / Config / default_dialect as four namespaces (tools/gen_kernels.py)",
@@ -1674,7 +1688,11 @@ def run(ctx: vlib.Ctx):
         "None (vals_ok/none_ok); custom serialization strategies returning None are outside",
         "value equals default: Python == on the attribute value; a NaN default is matched by NaN",
         "excluded corners, each proved refuted in Coq and listed as a known finding: call dialect vs forwarded keyword "
-        "defaults (flag_defaults_ok), union member flags (ok_h: flags_eqb)",
+        "defaults (flag_defaults_ok), union member flags (ok_h: flags_eqb), a bounded type variable left unbound "
+        "(K17_bound_refuted; vals_ok excludes its None); oracle-only known finding: dialect-specific method of a specialised "
+        "generic class (dialect-drops-type-args; such calls are kept out of the Coq cases)",
+        "a specialised generic class is a Union member in first position only (after another member the option-free twin "
+        "itself serializes it with the unspecialised method: union packing, outside this property)",
         "nested: mixin roots (codec path forwards no flags and hands its default dialect to every class by design); "
         "dataclass-typed fields have no default other than None / default_factory=list",
         "hooks, context values, format encoders (to_json ...) and lazy compilation do not change the mapping: exercised "
